@@ -12,6 +12,7 @@ import contextlib
 from . import sched
 from .sched import SimAbort, HarnessError, current_simthread
 from .net import (Net, SimSocketModule, SimSelectModule, SimTimeit, SimRLock)
+from . import stdlib
 
 TOOL_ID = 3
 _instrumented = {'done': False, 'files': (), 'gran': None}
@@ -167,49 +168,12 @@ def installed(sim, net, rand_rng, extra=None):
     sim.line_mute = False
     simos = SimOs(sim, rand_rng)
     sim.simos = simos
-    setattr_(C, 'socket', SimSocketModule(net))
-    setattr_(C, 'select', SimSelectModule(net))
-    setattr_(C, 'RLock', lambda: SimRLock(sim))
-    setattr_(C, 'timeit', SimTimeit(sim))
+    # every reference a pyCraft module holds to socket / select / time /
+    # timeit / threading (modules or the usual names imported from them),
+    # and every Thread subclass it defines
+    stdlib.patch_all(sim, net, setattr_)
     setattr_(encryption, 'os', simos)
 
-    NT = C.NetworkingThread
-
-    def nt_start(self):
-        sim.yield_point(31)
-        if getattr(self, '_sim_thread', None) is not None:
-            raise RuntimeError('threads can only be started once')
-        sim.log('thread-start', None)
-
-        def body():
-            try:
-                self.run()
-            finally:
-                sim.log('thread-end', st.tid)
-        st = sim.spawn(body, 'net%d' % sum(1 for t in sim.threads
-                                           if t.kind == 'net'),
-                       kind='net', obj=self)
-        self._sim_thread = st
-
-    def nt_join(self, timeout=None):
-        sim.yield_point(32)
-        st = getattr(self, '_sim_thread', None)
-        if st is None:
-            raise RuntimeError('cannot join thread before it is started')
-        if st is sim.current:
-            raise RuntimeError('cannot join current thread')
-        sim.stat('join-wait')
-        sim.block(lambda: st.state == sched.DONE,
-                  None if timeout is None else int(timeout * 1e6),
-                  reason='join')
-
-    def nt_is_alive(self):
-        st = getattr(self, '_sim_thread', None)
-        return st is not None and st.state != sched.DONE
-
-    setattr_(NT, 'start', nt_start)
-    setattr_(NT, 'join', nt_join)
-    setattr_(NT, 'is_alive', nt_is_alive)
     if extra:
         for obj, name, val in extra:
             setattr_(obj, name, val)
